@@ -24,6 +24,12 @@ class Unjudged(Exception):
     """The reference declines to judge (reason in args[0])."""
 
 
+class Beyond(Unjudged):
+    """The result would lie after 9999-12-31: there is no such date.  Which
+    error value stands for that is not fixed - but it is an error value, not a
+    date and not a Python exception."""
+
+
 # -- serial <-> date -------------------------------------------------------
 def date_of(serial):
     """datetime.date of a whole serial; None for 60 and outside 1..MAX."""
@@ -110,13 +116,17 @@ def date_serial(y, m, d):
         raise Unjudged('date-year-outside-1900..9999')
     months = y * 12 + (m - 1)
     yy, mm = months // 12, months % 12 + 1
-    if not 1900 <= yy <= 9999:
+    if yy > 9999:
+        raise Beyond('date-result-after-9999')
+    if yy < 1900:
         raise Unjudged('date-result-out-of-range')
     first = datetime.date(yy, mm, 1).toordinal()
     o = first + (d - 1)
     lo = datetime.date(1900, 1, 1).toordinal()
     hi = datetime.date(9999, 12, 31).toordinal()
-    if not lo <= o <= hi:
+    if o > hi:
+        raise Beyond('date-result-after-9999')
+    if o < lo:
         raise Unjudged('date-result-out-of-range')
     s_first = serial_of(datetime.date(yy, mm, 1))
     s = serial_of(datetime.date.fromordinal(o))
@@ -132,7 +142,9 @@ def _shift(serial, k):
         raise Unjudged('start-is-phantom-or-out-of-range')
     months = d.year * 12 + (d.month - 1) + k
     y, m = months // 12, months % 12 + 1
-    if not 1900 <= y <= 9999:
+    if y > 9999:
+        raise Beyond('month-shift-result-after-9999')
+    if y < 1900:
         raise Unjudged('month-shift-result-out-of-range')
     return d, y, m
 
